@@ -1,0 +1,102 @@
+//! Verification hooks
+//!
+//! This module only exists when the `verif-hooks` feature is enabled. It is
+//! used by external model-checking harnesses to observe (and, by blocking in
+//! the sink, to schedule) a few interesting points in the implementation.
+//! Without an installed sink every hook is a single relaxed load.
+
+use std::sync::atomic::{AtomicUsize, Ordering};
+
+/// An event reported by a hook
+#[derive(Clone, Copy, Debug, PartialEq, Eq)]
+pub enum Event {
+    /// A list mutex is about to be locked
+    ListLock {
+        /// Address of the mutex
+        mutex: usize,
+        /// Site identifier
+        site: &'static str,
+    },
+    /// A list was created: its mutex guards the raw list
+    ListNew {
+        /// Address of the mutex
+        mutex: usize,
+    },
+    /// A pointer to an element was computed from the buffer
+    PtrMade {
+        /// The element pointer
+        ptr: usize,
+        /// The start of the buffer it points into
+        buf: usize,
+        /// Size of an element
+        elem_size: usize,
+    },
+    /// An element pointer is about to be dereferenced
+    PtrUse {
+        /// The element pointer
+        ptr: usize,
+        /// Site identifier
+        site: &'static str,
+    },
+    /// The buffer of a list was allocated
+    BufAlloc {
+        /// Start of the buffer
+        buf: usize,
+        /// Size in bytes
+        bytes: usize,
+    },
+    /// The buffer of a list moved (growth)
+    BufMoved {
+        /// Old start
+        old: usize,
+        /// New start
+        new: usize,
+        /// New size in bytes
+        bytes: usize,
+    },
+    /// The buffer of a list was freed
+    BufFreed {
+        /// Start of the buffer
+        buf: usize,
+    },
+    /// The global type registry mutex is about to be locked
+    TypeRegistryLock,
+    /// Machine code of a module became callable
+    CodeLive {
+        /// Module identifier
+        module: usize,
+        /// Start of a function
+        start: usize,
+    },
+    /// Machine code of a module is about to be freed
+    CodeDead {
+        /// Module identifier
+        module: usize,
+    },
+    /// A compiled function is about to be called
+    CodeCall {
+        /// Address of the function
+        func: usize,
+    },
+}
+
+/// Type of the event sink
+pub type Sink = fn(&Event);
+
+static SINK: AtomicUsize = AtomicUsize::new(0);
+
+/// Install (or remove) the global event sink
+pub fn set_sink(sink: Option<Sink>) {
+    SINK.store(sink.map_or(0, |f| f as usize), Ordering::SeqCst);
+}
+
+/// Report an event to the sink, if one is installed
+#[inline]
+pub fn emit(event: Event) {
+    let p = SINK.load(Ordering::Relaxed);
+    if p != 0 {
+        // SAFETY: only `set_sink` writes this value, from a valid `Sink`
+        let f: Sink = unsafe { std::mem::transmute::<usize, Sink>(p) };
+        f(&event)
+    }
+}
